@@ -46,6 +46,12 @@ type stream struct {
 	// that reports a transient error for a segment that did go out). Called with the stream's lock held.
 	writeHook func(rec []byte) error
 
+	// faultAt >= 0: once exactly faultAt bytes have been handed to the reader, the next Read fails with faultErr
+	// and the stream carries on afterwards (a transient fault: a deadline of the transport's own, EINTR, a TLS alert retried)
+	faultAt   int
+	faultErr  error
+	delivered int
+
 	// errWithData: the Read that hands over the last bytes before the end of the stream returns the terminal
 	// error together with them (io.Reader allows both; sockets and TLS connections do it)
 	errWithData bool
@@ -96,7 +102,7 @@ func (s *stream) waitLag() {
 }
 
 func newStream() *stream {
-	s := &stream{budget: -1}
+	s := &stream{budget: -1, faultAt: -1}
 	s.cond = sync.NewCond(&s.mu)
 	return s
 }
@@ -132,8 +138,15 @@ func (s *stream) read(p []byte) (int, error) {
 	if len(p) == 0 {
 		return 0, nil
 	}
+	if s.faultAt >= 0 && s.delivered == s.faultAt {
+		s.faultAt = -1
+		return 0, s.faultErr
+	}
 	s.reads++
 	limit := len(p)
+	if s.faultAt > s.delivered && s.faultAt-s.delivered < limit {
+		limit = s.faultAt - s.delivered // stop exactly at the fault point
+	}
 	if len(s.readSizes) > 0 {
 		if s.readSizes[0] > 0 && s.readSizes[0] < limit {
 			limit = s.readSizes[0]
@@ -150,6 +163,7 @@ func (s *stream) read(p []byte) (int, error) {
 		s.chunks[0] = c[n:]
 	}
 	s.size -= n
+	s.delivered += n
 	s.cond.Broadcast()
 	if s.errWithData && len(s.chunks) == 0 && s.wclosed {
 		err := s.rerr
@@ -337,6 +351,14 @@ func (e *End) CloseWrite(err error) { e.out.closeWrite(err) }
 func (e *End) SetWriteHook(h func(rec []byte) error) {
 	e.out.mu.Lock()
 	e.out.writeHook = h
+	e.out.mu.Unlock()
+}
+
+// SetReadFault makes the OTHER side's Read fail once with err when exactly off bytes of what this end wrote have
+// been read, and carry on afterwards.
+func (e *End) SetReadFault(off int, err error) {
+	e.out.mu.Lock()
+	e.out.faultAt, e.out.faultErr = off, err
 	e.out.mu.Unlock()
 }
 
